@@ -351,7 +351,7 @@ fn expected_probes(prop: Prop) -> &'static [&'static str] {
         Prop::C03 => &["create-object-duplicate", "destroy-object-foreign", "destroy-object-invalid", "recreate-after-destroy", "object-cascade-2+-services", "disconnect-with-2+-objects", "create-service-foreign", "create-service-duplicate", "create-service-invalid-object", "destroy-service-foreign", "destroy-service-invalid", "create-service2-bad-info"],
         Prop::C04 => &["emit-to-2+", "last-unsubscribe-forwarded", "first-subscribe-forwarded", "last-subscriber-disconnects", "last-all-subscriber-disconnects", "service-destroyed-with-subscribers", "subscribe-twice", "non-owner-emit", "subscribe-all-not-supported", "subscribe-without-serial"],
         Prop::C05 => &["credit-hit-zero", "replenish-on-send", "replenish-on-grant", "overrun-cut-off", "capacity-overflow", "claim-already-claimed", "claim-closed-end", "claim-invalid-channel", "close-unclaimed-end", "close-foreign-end", "send-to-unclaimed-receiver", "send-to-closed-receiver", "both-ends-same-connection", "owner-disconnect-closes-channel-end", "add-capacity-foreign", "send-item-foreign-sender", "channel-session", "channel-item-delivered"],
-        Prop::C09 => &["conn-removed-with-state", "send-to-dropped-receiver-failed", "input-from-removed-connection", "caller-disconnect-with-pending-call", "service-removed-with-pending-call", "owner-disconnect-closes-channel-end", "last-subscriber-disconnects", "create-channel-from-dropped-task", "introspection-query-continued-after-disconnect", "handler-returned-err"],
+        Prop::C09 => &["conn-removed-with-state", "send-to-dropped-receiver-failed", "input-from-removed-connection", "caller-disconnect-with-pending-call", "service-removed-with-pending-call", "owner-disconnect-closes-channel-end", "last-subscriber-disconnects", "create-channel-from-dropped-task", "introspection-query-continued-after-disconnect", "handler-returned-err", "connection-id-reused"],
         Prop::C10 => &["current-enumeration-nonempty", "bus-event-delivered", "bus-event-deduplicated-per-connection", "filter-removed", "start-while-started", "foreign-listener-cookie"],
         Prop::C11 => &["wrong-direction-message", "handler-returned-err", "gate-closed", "input-from-removed-connection", "introspection-reply-unknown-serial", "introspection-reply-from-wrong-connection", "call-duplicate-serial", "subscribe-without-serial", "create-service2-bad-info"],
         Prop::C12 => &["handshake-ok", "handshake-incompatible", "gate-closed", "cross-epoch-payload", "call2-downgraded-for-old-callee", "old-callee-abort-suppressed", "subscribe-all-not-supported", "payload-at-depth-limit"],
@@ -464,8 +464,10 @@ fn cmd_run(prop: Prop, tier: Tier, opts: &std::collections::HashMap<String, Stri
         nontrivial: cfg.nontrivial,
         first_index: 0,
         directed: directed::plans(prop),
+        only: opts.get("only").and_then(|s| s.parse().ok()),
     };
     let out = runner::run_batch(&bcfg, &known);
+    let no_minimise = opts.contains_key("no-minimise");
 
     if let Some(e) = &out.harness_error {
         eprintln!("HARNESS-ERROR: {e}");
@@ -480,6 +482,7 @@ fn cmd_run(prop: Prop, tier: Tier, opts: &std::collections::HashMap<String, Stri
     let mut violations = 0;
     if let Some(found) = &out.found {
         // Confirm by re-execution from plan + choices, then minimise, then confirm again.
+        runner::inflight::set(workers, 'M', found.index);
         match runner::confirm(cfg.harness, prop, tier, found, false) {
             Err(e) => {
                 let path = write_replay(prop, tier, base_seed, found, false);
@@ -487,7 +490,7 @@ fn cmd_run(prop: Prop, tier: Tier, opts: &std::collections::HashMap<String, Stri
                 return 2;
             }
             Ok(_) => {
-                let min = shrink::minimise(cfg.harness, prop, tier, found, 1500);
+                let min = if no_minimise { None } else { shrink::minimise(cfg.harness, prop, tier, found, 1500) };
                 let minimised = min.is_some();
                 let f = min.as_ref().unwrap_or(found);
                 let path = write_replay(prop, tier, base_seed, f, minimised);
@@ -514,6 +517,134 @@ fn cmd_run(prop: Prop, tier: Tier, opts: &std::collections::HashMap<String, Stri
     code
 }
 
+fn died_abnormally(st: &std::process::ExitStatus) -> bool {
+    use std::os::unix::process::ExitStatusExt;
+    st.signal().is_some() || !matches!(st.code(), Some(0) | Some(1) | Some(2))
+}
+
+fn panic_lines(stderr: &str) -> String {
+    let mut out = Vec::new();
+    let mut lines = stderr.lines();
+    while let Some(l) = lines.next() {
+        if l.starts_with("thread '") && l.contains("panicked at") {
+            let msg = lines.next().unwrap_or("");
+            out.push(format!("{} {}", l.trim_end_matches(':'), msg));
+        }
+    }
+    out.dedup();
+    out.join(" | ")
+}
+
+/// `run`: executes the batch in a child process. A run that makes the process abort (a second
+/// panic while unwinding, e.g. a failing assertion in a destructor) cannot be caught in-process;
+/// the parent then finds the run among the ones that were in flight, by re-executing each alone in
+/// its own child, and reports it with a replay file like any other violation.
+fn cmd_supervise(prop: Prop, tier: Tier, opts: &std::collections::HashMap<String, String>) -> i32 {
+    let exe = std::env::current_exe().expect("current_exe");
+    let inflight = format!("{}/replays/.inflight-{}-{}", verif_dir(), prop.name(), std::process::id());
+    let _ = std::fs::create_dir_all(format!("{}/replays", verif_dir()));
+    let _ = std::fs::write(&inflight, b"");
+    let child_args = |extra: &[String]| {
+        let mut a = vec!["run-inner".to_string(), prop.name().to_string(), "--tier".into(), tier.name().to_string()];
+        for (k, v) in opts {
+            if k != "tier" {
+                a.push(format!("--{k}"));
+                a.push(v.clone());
+            }
+        }
+        a.extend_from_slice(extra);
+        a
+    };
+    let st = std::process::Command::new(&exe).args(child_args(&[])).env("VERIF_INFLIGHT", &inflight).status();
+    let st = match st {
+        Ok(s) => s,
+        Err(e) => {
+            eprintln!("HARNESS-ERROR: cannot start the batch process: {e}");
+            return 2;
+        }
+    };
+    let slots = std::fs::read_to_string(&inflight).unwrap_or_default();
+    let _ = std::fs::remove_file(&inflight);
+    if !died_abnormally(&st) {
+        return st.code().unwrap_or(2);
+    }
+    eprintln!("the batch process died ({st}); looking for the run that killed it");
+    let mut candidates: Vec<u64> = Vec::new();
+    let mut minimising = None;
+    for line in slots.lines() {
+        let mut it = line.split_whitespace();
+        match (it.next(), it.next().and_then(|x| x.parse::<u64>().ok())) {
+            (Some("R"), Some(i)) => candidates.push(i),
+            (Some("M"), Some(i)) => minimising = Some(i),
+            _ => {}
+        }
+    }
+    candidates.sort();
+    candidates.dedup();
+    if let Some(i) = minimising {
+        // The violation was found and confirmed; a shrinking candidate killed the process.
+        candidates = vec![i];
+    }
+    for i in candidates {
+        let out = std::process::Command::new(&exe)
+            .args(child_args(&["--only".into(), i.to_string(), "--no-minimise".into(), "x".into(), "--workers".into(), "1".into()]))
+            .output();
+        let Ok(out) = out else { continue };
+        if !died_abnormally(&out.status) {
+            if out.status.code() == Some(1) {
+                // An ordinary violation (reported with its own replay file by the child).
+                print!("{}", String::from_utf8_lossy(&out.stdout));
+                return 1;
+            }
+            continue;
+        }
+        // Culprit: build its replay file from the generated plan (generation only, no execution).
+        let Some(cfg) = prop_cfg(prop) else { return 2 };
+        let base_seed: u64 = opts
+            .get("seed")
+            .cloned()
+            .or_else(|| std::env::var("VERIF_SEED").ok())
+            .and_then(|s| s.parse().ok())
+            .unwrap_or(1);
+        let directed = directed::plans(prop);
+        let seed = rng::run_seed(base_seed, i);
+        let spec = RunSpec {
+            prop,
+            tier,
+            seed,
+            index: i,
+            batch_seed: base_seed,
+            plan: directed.get(i as usize).cloned(),
+            choices: None,
+            tracing: false,
+            plan_only: true,
+        };
+        let planned = runner::execute(cfg.harness, spec);
+        let detail = format!(
+            "the process aborted while executing this run (a panic that cannot unwind, e.g. inside a destructor during cleanup): {}",
+            panic_lines(&String::from_utf8_lossy(&out.stderr))
+        );
+        let found = runner::Found {
+            index: i,
+            seed,
+            plan: planned.plan,
+            choices: Vec::new(),
+            violation: model::Violation::new("process-abort", &[prop], detail.clone()),
+            trace_hash: 0,
+        };
+        let path = write_replay(prop, tier, base_seed, &found, false);
+        println!("violation rule=process-abort run_index={i} run_seed={seed}");
+        println!("detail: {detail}");
+        println!("VIOLATION property={} replay={}", prop.name(), path);
+        let mut bo = runner::BatchOut::default();
+        bo.wall_s = 0.0;
+        write_evidence(prop, tier, base_seed, &cfg, &bo, 1);
+        return 1;
+    }
+    eprintln!("HARNESS-ERROR: the batch process died ({st}) and no in-flight run reproduces that alone");
+    2
+}
+
 fn cmd_replay(path: &str) -> i32 {
     let Ok(text) = std::fs::read_to_string(path) else {
         eprintln!("HARNESS-ERROR: cannot read {path}");
@@ -530,6 +661,27 @@ fn cmd_replay(path: &str) -> i32 {
     let Some(cfg) = prop_cfg(prop) else {
         return 2;
     };
+    if doc["violation"]["rule"].as_str() == Some("process-abort") && std::env::var("VERIF_REPLAY_INNER").is_err() {
+        // Replayed in a child process: reproduction means that the child dies again.
+        let exe = std::env::current_exe().expect("current_exe");
+        let out = std::process::Command::new(exe).args(["replay", path]).env("VERIF_REPLAY_INNER", "1").output();
+        return match out {
+            Ok(o) if died_abnormally(&o.status) => {
+                println!("reproduced: rule=process-abort ({})", o.status);
+                println!("detail: {}", panic_lines(&String::from_utf8_lossy(&o.stderr)));
+                println!("VIOLATION property={} replay={}", prop.name(), path);
+                1
+            }
+            Ok(o) => {
+                eprintln!("HARNESS-ERROR: replay did not abort (exit {:?})", o.status.code());
+                2
+            }
+            Err(e) => {
+                eprintln!("HARNESS-ERROR: cannot start the replay process: {e}");
+                2
+            }
+        };
+    }
     let tier = if doc["tier"].as_str() == Some("thorough") {
         Tier::Thorough
     } else {
@@ -658,11 +810,22 @@ fn main() {
                 _ => Tier::Quick,
             };
             match prop {
-                Some(p) => cmd_run(p, tier, &opts),
+                Some(p) => cmd_supervise(p, tier, &opts),
                 None => {
                     eprintln!("usage: aldrin-sim run <PROPERTY> --tier quick|thorough");
                     2
                 }
+            }
+        }
+        Some("run-inner") => {
+            let prop = pos.get(1).and_then(|s| Prop::parse(s));
+            let tier = match opts.get("tier").map(String::as_str) {
+                Some("thorough") => Tier::Thorough,
+                _ => Tier::Quick,
+            };
+            match prop {
+                Some(p) => cmd_run(p, tier, &opts),
+                None => 2,
             }
         }
         Some("replay") => match pos.get(1) {
